@@ -1020,10 +1020,11 @@ theorem jsToExt_length (fl rat : ExtNum) : ∀ xs, (jsToExt fl rat xs).length = 
   | [] => rfl
   | _ :: xs => by simp [jsToExt, jsToExt_length fl rat xs]
 
-/-- flat-array or object mode with integers as hexadecimal or decimal strings and hexadecimal bytes / addresses -/
+/-- flat-array or object mode with integers as hexadecimal or decimal strings and hexadecimal bytes / addresses (any of
+    the four address renderings, the EIP-55 checksum form included) -/
 def HexCfg (cfg : SerCfg) : Prop :=
   (cfg.mode = .flatArrays ∨ cfg.mode = .objects) ∧ (cfg.ints = .hex0x ∨ cfg.ints = .base10) ∧ (cfg.bytes = .hex ∨ cfg.bytes = .hex0x) ∧
-  (cfg.addr = .none ∨ cfg.addr = .hex0x ∨ cfg.addr = .plain)
+  (cfg.addr = .none ∨ cfg.addr = .hex0x ∨ cfg.addr = .plain ∨ cfg.addr = .checksum)
 
 /-- the table assigns each elementary type its reader -/
 def ReadOK (info : ElemInfo) : Prop :=
@@ -1055,6 +1056,15 @@ theorem hexish_readback (pre : List Char) (hpre : pre = [] ∨ pre = ['0', 'x'])
   · show hexDecode (trim0x ('0' :: 'x' :: hexEncode a)) = some a
     rw [trim0x, C19.hexDecode_hexEncode]
 
+
+/-- the EIP-55 checksum rendering of an address reads back as the address (the reader ignores letter case) -/
+theorem checksum_readback (a : Bytes) (h20 : a.length = 20) :
+    hexDecode (trim0x (charsOfBytes (asciiBytes (addressChecksumString a)))) = some a := by
+  rw [C19.checksum_is_eip55 a h20, charsOfBytes_ascii _ (FFS.Lemmas.Eip55.eip55_small a)]
+  obtain ⟨cs, he, hd⟩ := FFS.Lemmas.Eip55.eip55_decodes a
+  rw [he]
+  show hexDecode cs = some a
+  rw [hd, C19.hexDecode_hexEncode]
 
 /-- string leaves whose bytes are the UTF-8 encoding of the text a JSON parser reads back (every ASCII string is) -/
 def StrLeafOK : CV → Prop
@@ -1133,7 +1143,7 @@ theorem leaf_readback (cfg : SerCfg) (hcfg : HexCfg cfg) (info : ElemInfo) (sfx 
       have hback : fromBE (toBE 20 z.natAbs) = z.natAbs := by rw [fromBE_toBE, Nat.mod_eq_of_lt hz]
       have hzz : ((z.natAbs : Nat) : Int) = z := by omega
       have hne : ¬ (info.name = "int" ∨ info.name = "uint") := by rw [hn]; decide
-      rcases haddr with ha | ha | ha
+      rcases haddr with ha | ha | ha | ha
       · refine ⟨serBytes cfg.bytes (toBE 20 z.natAbs), by simp [serElem, hn, hfill, ha], ?_⟩
         have := serBytes_readback cfg hbytes (toBE 20 z.natAbs) fl rat
         have hr1 : info.reader ≠ "getIntegerFromInterface" := by rw [hread]; decide
@@ -1146,6 +1156,9 @@ theorem leaf_readback (cfg : SerCfg) (hcfg : HexCfg cfg) (info : ElemInfo) (sfx 
         have := hexish_readback [] (Or.inl rfl) (toBE 20 z.natAbs)
         simp only [List.nil_append] at this
         simp [readElementary, hread, jToExt, getBytes, addressPlainString, this, Outcome.map, hback, hzz]
+      · refine ⟨.str (asciiBytes (addressChecksumString (toBE 20 z.natAbs))), by simp [serElem, hn, hfill, ha], ?_⟩
+        have := checksum_readback (toBE 20 z.natAbs) (toBE_length 20 z.natAbs)
+        simp [readElementary, hread, jToExt, getBytes, this, Outcome.map, hback, hzz]
     | bytes b => simp [Spec.Abi.WellTyped, hn] at hw
     | str b => simp [Spec.Abi.WellTyped, hn] at hw
     | kids cs => simp [Spec.Abi.WellTyped] at hw
